@@ -136,7 +136,7 @@ PROPS = {
         verus=['mask', 'mask_parser', 'jsdoc', 'comments', 'comments_doc', 'lhs_masker'], kani_quick=[], kani_thorough=[],
         rac=['prose_offsets', 'lhs_prose_offsets', 'html_prose_offsets', 'typst_prose_offsets', 'c04_fixed_files', 'c04_jsdoc_fence', 'c04_tilde_fence', 'c04_go_directive', 'c04_javadoc_pre', 'c04_javadoc_return'],
         unverified=[
-            'BOUNDED ONLY: tree-sitter node selection + byte_spans_to_char_spans (str byte code), the Markdown byte/char bookkeeping, without_initiators (which characters count as comment markers); PROVED are the composition steps: parsers::Mask<M,P>::parse (tokens shifted into their chunk, in order, nothing outside the allowed spans emitted as text - given the Masker and inner-Parser contracts), the mask operations push_allowed / merge_whitespace_sep, and the line-based comment parsers Unit / Go / JsDoc / JavaDoc::parse + unit::parse_line + jsdoc::parse_line / mark_inline_tags (every line\'s tokens moved behind its comment markers and to the line\'s offset; result in bounds and ordered - given the inner-Parser contract)',
+            'BOUNDED ONLY: tree-sitter node selection + byte_spans_to_char_spans (str byte code), the Markdown byte/char bookkeeping, without_initiators (which characters count as comment markers); PROVED are the composition steps: parsers::Mask<M,P>::parse (tokens shifted into their chunk, in order, nothing outside the allowed spans emitted as text - given the Masker and inner-Parser contracts), the mask operations push_allowed / merge_whitespace_sep, and the line-based comment parsers Unit / Go / JsDoc / JavaDoc::parse + unit::parse_line + jsdoc::parse_line / mark_inline_tags (every line\'s tokens moved behind its comment markers and to the line\'s offset; result in bounds and ordered - given the inner-Parser contract; for unit::parse_line and Unit::parse additionally the EXACT result: the inner parser\'s tokens of each line, moved by the marker width plus the line offset, a Newline token per LF, nothing from fenced lines)',
             'the git-commit front-end and the other 15 tree-sitter languages are not in the prose-offset checks; for Typst only the declared prose words are demanded (strings handed to functions may or may not be prose), not exactness',
             'files beyond the segment grammar of the check (3 of <=14 segments per language)',
         ],
